@@ -24,7 +24,8 @@ type c19Name struct {
 	groups  []string // source addresses, one per client group taking part
 	burstAt time.Duration
 	burst   []int  // burst size per group
-	outcome string // success, nxdomain, servfail, garbage, silence
+	outcome string // success, nxdomain, servfail, refused, garbage, silence, conn-closed
+	viaTCP  bool   // routed to the TCP upstream (transport errors are immediate there) instead of the UDP one
 	newTTL  uint32
 
 	primes   int32
@@ -34,6 +35,7 @@ type c19Name struct {
 	after    atomic.Bool     // the refresh phase is over: later fetches are ordinary misses
 	held     atomic.Int32    // refresh fetches that arrived while the gate was closed
 	heldBy   [3]atomic.Int32 // the same, per client group (attributed through the ECS option of the upstream query)
+	nonPrime [3]atomic.Int32 // every fetch after priming, per client group (held or not)
 	serials  sync.Map        // serial -> fetch index
 }
 
@@ -63,11 +65,11 @@ func c19GroupOf(q *UpQuery) int {
 }
 
 func TestVfC19Prefetch(t *testing.T) {
-	st := vfkit.Stats("TestVfC19Prefetch", "runs of 20-80 independent names: TTL in {8,12} s, entries primed for 1-3 client groups, then a burst of 1-120 concurrent hits per group at a drawn instant inside the last quarter of the lifetime; the upstream holds the refresh reply until all burst responses are collected (or 3 s), then the refresh ends as success (new TTL) / NXDOMAIN / SERVFAIL / REFUSED / garbage / silence; oracles: every hit of the burst is answered from the old entry while the refresh is held, at most one refresh per group is in flight, after a successful refresh later hits carry the new fetch, after a failed or negative refresh the old entry is served until its expiry and not 2 s beyond; non-trivial = burst >= 2 inside the window")
+	st := vfkit.Stats("TestVfC19Prefetch", "runs of 20-80 independent names: TTL in {8,12} s, entries primed for 1-3 client groups, then a burst of 1-120 concurrent hits per group at a drawn instant inside the last quarter of the lifetime; the upstream holds the refresh reply until all burst responses are collected (or 3 s), then the refresh ends as success (new TTL) / NXDOMAIN / SERVFAIL / REFUSED / garbage / silence / connection closed, over a UDP or a TCP upstream (where transport errors are immediate); oracles: every hit of the burst is answered from the old entry while the refresh is held, at most one refresh per group is in flight, after a successful refresh later hits carry the new fetch, after a failed or negative refresh the old entry is served until its expiry and not 2 s beyond, and a further hit in the window starts a new refresh (the reservation ended with the refresh); non-trivial = burst >= 2 inside the window")
 	defer vfkit.Flush()
 	block := NextIPBlock()
 	var names sync.Map
-	up, err := StartUpstream("udp", "up", block+"2", 0, nil, func(q *UpQuery) UpAction {
+	handler := func(q *UpQuery) UpAction {
 		if q.Msg.Err != nil || len(q.Msg.Q) != 1 {
 			return UpAction{}
 		}
@@ -84,6 +86,9 @@ func TestVfC19Prefetch(t *testing.T) {
 		if !n.after.Load() {
 			// a refresh (or a request-path fetch during the refresh phase): scripted outcome, held while the gate is closed
 			a := UpAction{}
+			if g := c19GroupOf(q); g >= 0 {
+				n.nonPrime[g].Add(1)
+			}
 			if !n.gateOpen.Load() {
 				n.held.Add(1)
 				if g := c19GroupOf(q); g >= 0 {
@@ -103,20 +108,30 @@ func TestVfC19Prefetch(t *testing.T) {
 				a.Reply = EncodeMsg(KeyedAnswer(q.Msg, "c19", uint32(q.Seq), 30, 5))
 			case "garbage":
 				a.Reply = []byte{q.Raw[0], q.Raw[1], 0x81, 0x80, 0xff, 0xff, 0xff, 0xff, 0, 0, 0, 0}
+			case "conn-closed":
+				a.CloseBefore = true // tcp: the exchange fails at once; udp: the same as silence
 			}
 			return a
 		}
 		// fetches after the refresh phase
 		return UpAction{Reply: EncodeMsg(KeyedAnswer(q.Msg, "c19", uint32(q.Seq), 30, 0))}
-	})
+	}
+	up, err := StartUpstream("udp", "up", block+"2", 0, nil, handler)
 	if err != nil {
 		t.Fatal(err)
 	}
 	defer up.Close()
+	upTCP, err := StartUpstream("tcp", "uptcp", block+"3", 0, nil, handler)
+	if err != nil {
+		t.Fatal(err)
+	}
+	defer upTCP.Close()
 	pip := block + "10"
-	cfg := &Config{Servers: StdServers(pip, []string{"udp"}, ""), Upstreams: []UpstreamCfg{{Tag: "up", Addr: up.Addr()}}, Rules: []Rule{{Forward: "up"}},
-		Cache: &CacheCfg{MemSize: 64 << 20, IpMarker: "$DIR/marker.txt"}, ECS: &ECSCfg{Enabled: true}}
-	p, err := StartProxy(cfg.YAML(), map[string]string{"marker.txt": c07Marker}, ProxyOpts{})
+	cfg := &Config{Servers: StdServers(pip, []string{"udp"}, ""), Upstreams: []UpstreamCfg{{Tag: "up", Addr: up.Addr()}, {Tag: "uptcp", Addr: upTCP.Addr()}},
+		DomainSets: []DomainSet{{Tag: "viatcp", Files: []string{"$DIR/viatcp.txt"}}},
+		Rules:      []Rule{{Domain: "viatcp", Forward: "uptcp"}, {Forward: "up"}},
+		Cache:      &CacheCfg{MemSize: 64 << 20, IpMarker: "$DIR/marker.txt"}, ECS: &ECSCfg{Enabled: true}}
+	p, err := StartProxy(cfg.YAML(), map[string]string{"marker.txt": c07Marker, "viatcp.txt": "prefetchtcp.test\n"}, ProxyOpts{})
 	if err != nil {
 		t.Fatal(err)
 	}
@@ -150,7 +165,8 @@ func TestVfC19Prefetch(t *testing.T) {
 			// lifetime remain, and 150 ms after the start of the window.
 			q := time.Duration(n.ttl) * time.Second / 4
 			n.burstAt = 3*q + 150*time.Millisecond + time.Duration(rapid.IntRange(0, int((q-1450*time.Millisecond)/time.Millisecond)).Draw(t, "intoWindowMs"))*time.Millisecond
-			n.outcome = rapid.SampledFrom([]string{"success", "success", "nxdomain", "servfail", "refused", "garbage", "silence"}).Draw(t, "outcome")
+			n.outcome = rapid.SampledFrom([]string{"success", "success", "nxdomain", "servfail", "refused", "garbage", "silence", "conn-closed"}).Draw(t, "outcome")
+			n.viaTCP = rapid.Bool().Draw(t, "viaTCP")
 			n.newTTL = rapid.SampledFrom([]uint32{30, 60}).Draw(t, "newTTL")
 			all[i] = n
 			names.Store(n.label, n)
@@ -162,7 +178,7 @@ func TestVfC19Prefetch(t *testing.T) {
 		}()
 		var firstErr atomic.Value
 		fail := func(format string, args ...any) { firstErr.CompareAndSwap(nil, fmt.Sprintf(format, args...)) }
-		var bursts2 atomic.Int32
+		var bursts2, relChecked atomic.Int32
 		var wg sync.WaitGroup
 		for _, n := range all {
 			wg.Add(1)
@@ -174,6 +190,9 @@ func TestVfC19Prefetch(t *testing.T) {
 					}
 				}()
 				name := vfkit.Name{[]byte(n.label), []byte("prefetch"), []byte("test")}
+				if n.viaTCP {
+					name[1] = []byte("prefetchtcp")
+				}
 				clients := make([]*UDPClient, len(n.groups))
 				for g, src := range n.groups {
 					c, err := NewUDPClient(src, fmt.Sprintf("%s:%d", pip, ListenerPorts["udp"]))
@@ -331,6 +350,7 @@ func TestVfC19Prefetch(t *testing.T) {
 					if time.Until(expiry) < 1300*time.Millisecond && n.outcome != "success" {
 						continue // within the cache clock's granularity of the old entry's expiry: cannot be judged
 					}
+					fetchesBefore := n.nonPrime[g].Load()
 					r := ask(g, uint16(50+g))
 					if r == nil {
 						fail("%s: no response after the refresh", n.label)
@@ -357,10 +377,28 @@ func TestVfC19Prefetch(t *testing.T) {
 							fail("%s: after a %s refresh the old positive entry of group %d is no longer served before its expiry (rcode %d serial %d fetch index %v, %.2fs before expiry)", n.label, n.outcome, g, r.Msg.Rcode(), s, idx, time.Until(expiry).Seconds())
 							return
 						}
+						// The failed refresh has ended (its reply was released 400 ms ago), so nothing is in flight for this
+						// key: this hit - still inside the window - must be able to start a refresh of its own. A single-flight
+						// reservation that outlives its refresh would silently switch prefetching off for the key.
+						ended := n.outcome == "servfail" || n.outcome == "refused" || n.outcome == "nxdomain" || (n.viaTCP && (n.outcome == "garbage" || n.outcome == "conn-closed"))
+						if refreshed[g] && ended {
+							relChecked.Add(1)
+							again := false
+							for until := time.Now().Add(600 * time.Millisecond); time.Now().Before(until); time.Sleep(5 * time.Millisecond) {
+								if n.nonPrime[g].Load() > fetchesBefore {
+									again = true
+									break
+								}
+							}
+							if !again {
+								fail("%s: after the %s refresh of group %d had ended, a further hit inside the refresh window (%.2fs before expiry) started no new refresh: the single-flight reservation was not released", n.label, n.outcome, g, time.Until(expiry).Seconds())
+								return
+							}
+						}
 					}
 				}
 				n.after.Store(true)
-				if n.outcome != "success" && n.outcome != "silence" {
+				if n.outcome != "success" && n.outcome != "silence" && n.outcome != "conn-closed" {
 					// and not beyond its expiry (+2 s)
 					time.Sleep(time.Until(expiry.Add(2200 * time.Millisecond)))
 					r := ask(0, 70)
@@ -389,6 +427,7 @@ func TestVfC19Prefetch(t *testing.T) {
 		}
 		st.Class("names", nNames)
 		st.Class("bursts>=2", int(bursts2.Load()))
+		st.Class("reservation-release-checked", int(relChecked.Load()))
 		st.Case(vfkit.Fingerprint(runNo, os.Getpid(), nNames), bursts2.Load() > 0, nil, func() any {
 			return map[string]any{"names": nNames, "bursts_ge_2": bursts2.Load(), "example": fmt.Sprintf("ttl=%d groups=%v burst=%v at=%v outcome=%s", all[0].ttl, all[0].groups, all[0].burst, all[0].burstAt, all[0].outcome)}
 		})
